@@ -17,7 +17,7 @@ for d in sorted(glob.glob("/verif/seeded/*/meta.json")):
     n = m.get("notes", {})
     desc = (n.get("summary", "") or "")[:230].replace("|", "/").replace("\n", " ")
     need = (n.get("needs_to_manifest", "") or "")[:160].replace("|", "/").replace("\n", " ")
-    fired = ", ".join(f"{k}: " + "; ".join(sorted({x.split()[0] for x in v if x.startswith("R")})) for k, v in sorted(m.get("checks_fired", {}).items())) or "-"
+    fired = ", ".join(f"{k}: " + "; ".join(sorted({y.strip().split()[0] for x in v for y in x.split(";") if y.strip().startswith("R")})) for k, v in sorted(m.get("checks_fired", {}).items())) or "-"
     errs = ", ".join(sorted(m.get("checks_analysis_error", {}))) or "-"
     seeds.append(f"| {m['id']} | {m['property']} | {desc} **Needs:** {need} | {'yes' if m.get('confirmed') else m.get('status', 'NO')} | {fired} | {errs} |")
 p = "/verif/DESIGN.md"
@@ -28,6 +28,21 @@ def put(s, tag, body):
         return s
     i, j = s.index(a) + len(a), s.index(b)
     return s[:i] + "\n" + body + "\n" + s[j:]
+# benign corpus summary (status from tools/corpus_recheck.py output, if present)
+try:
+    bn = json.load(open("/verif/benign/notes.json"))
+    status = {}
+    try:
+        status = json.load(open("/verif/benign/status.json"))
+    except Exception:
+        pass
+    rows = ["| id | round | kind / summary | result on all 20 checks |", "|---|---|---|---|"]
+    for n in bn:
+        bid = f"{n['property']}-{n['n']}"
+        rows.append(f"| {bid} | {n.get('round', 1)} | {(str(n.get('kind', '')) + ': ' + str(n.get('summary', '')))[:260].replace('|', '/').replace(chr(10), ' ')} | {status.get(bid, '?')} |")
+    s = put(s, "BENIGN2", "\n".join(rows))
+except Exception as e:
+    print("benign table not generated:", e)
 s = put(s, "RULES", "\n".join(inv))
 s = put(s, "SEEDS", "\n".join(seeds))
 open(p, "w").write(s)
